@@ -122,6 +122,9 @@ func (e *engine) step(i int, s Step) string {
 		o := os[s.Obj%len(os)]
 		w := e.want(s.Spec, s.Op)
 		got, kept := hist.Do(o, s.Op)
+		if strings.Contains(got, "FOREIGN-FILE") || strings.Contains(w, "FOREIGN-FILE") {
+			return fmt.Sprintf("step %d: %s on object %d of spec %d: %s", i, s.Op, s.Obj%len(os), s.Spec, trunc(got+" / fresh: "+w))
+		}
 		if got != w {
 			return fmt.Sprintf("step %d: %s on object %d of spec %d returned\n  %s\na freshly built object returns\n  %s", i, s.Op, s.Obj%len(os), s.Spec, trunc(got), trunc(w))
 		}
